@@ -7,7 +7,7 @@ C09 model: the pieces of the canonical formatter with a logical core.
 * the emission of `src` commands / `@include` paths: raw (as shipped) or quoted
   (repaired).
 * `Pipeline.topoSort` of compile_pipelines.go: transitive closure of the call
-  dependencies, then the stable "shift a call to just after its last
+  dependencies (the until-nothing-changes loop of `addNextDeps`), then the stable "shift a call to just after its last
   dependency" loop which the formatter and the compiler both run.
 
 Core Lean only.
@@ -85,17 +85,33 @@ def tabulate (n : Nat) (d : Dep) : List (List Bool) :=
 
 def ofTable (t : List (List Bool)) : Dep := fun a b => (t.getD a []).getD b false
 
-/-- `k` rounds of `addNextDeps` on the materialised relation -/
+/-- `k` rounds of `addNextDeps` on the materialised relation, whatever they
+change.  FORMER definition of `closedTable` (`closeTab n n`); kept because the
+lemma `closeTab_mono` and older notes refer to it.  Not used by `topoSort` any more. -/
 def closeTab (n : Nat) : Nat → List (List Bool) → List (List Bool)
   | 0, t => t
   | k + 1, t => closeTab n k (tabulate n (closeOnce n (ofTable t)))
 
+/-- the `for changes` loop of `addNextDeps`: one Jacobi round at a time (the
+missing dependencies of every call are computed from the same snapshot of the
+map, then all added) until a round adds nothing.  The first argument after `n`
+is fuel. -/
+def closeFix (n : Nat) : Nat → List (List Bool) → List (List Bool)
+  | 0, t => t
+  | k + 1, t =>
+    let t' := tabulate n (closeOnce n (ofTable t))
+    if t' == t then t else closeFix n k t'
+
 /-- the closed dependency table `topoSort` hands to the shift loop: the direct
-dependencies among calls `0 … n-1`, closed by `n` rounds (path doubling needs
-about `log₂ n`; the real loop runs until nothing changes — tied by
-correspondence on the resulting map) -/
+dependencies among calls `0 … n-1`, closed by the loop the code runs: rounds of
+`closeOnce` until nothing changes.  Fuel `n² + 1`: every round that changes the
+table adds at least one of the at most `n²` pairs, so the fuel is never
+exhausted and the result is a fixed point of `closeOnce`
+(`closedTable_fix` in Proofs/FormatClosure.lean), hence transitive
+(`closedDeps_trans`).  (On a dependency cycle the Go loop stops early with an
+error; the model runs on to the fixed point and `hasCycle` reports the cycle.) -/
 def closedTable (n : Nat) (edges : List (Nat × Nat)) : List (List Bool) :=
-  closeTab n n (tabulate n (depOfEdges edges))
+  closeFix n (n * n + 1) (tabulate n (depOfEdges edges))
 
 def hasCycle (n : Nat) (d : Dep) : Bool := (List.range n).any fun a => d a a
 
@@ -126,7 +142,8 @@ def topoSort (n : Nat) (edges : List (Nat × Nat)) : List Nat :=
   if hasCycle n (ofTable t) then List.range n else loop (ofTable t) (n * n + n + 1) (List.range n) 0
 
 /-- the relation is transitive / irreflexive on the given calls: what
-`addNextDeps` establishes (closure, cycle = error) before the shift loop runs -/
+`addNextDeps` establishes (closure: proved for every graph, `closedDeps_trans`;
+cycle = error) before the shift loop runs -/
 def transOn (l : List Nat) (d : Dep) : Bool :=
   l.all fun a => l.all fun b => l.all fun c => !(d a b && d b c) || d a c
 
